@@ -165,9 +165,18 @@ theorem fixChild_eq (kvs : List (K × V)) (kids : List (Node K V)) (j : Nat) :
          | some _ => (mergeAt kvs kids j).map fun r => (r.1, r.2, some j)) := by
   have e1 : ((j : Int) - 1).toNat = j - 1 := by omega
   have e2 : ((j : Int) + 1).toNat = j + 1 := by omega
-  simp only [fixChild, hasLeftSibling, hasRightSibling, leftSiblingIdx, rightSiblingIdx, stealRight, stealLeft,
-    mergeIntoLeft, e1, e2, Bool.and_eq_true, decide_eq_true_eq, Int.natCast_pos, Int.ofNat_lt, gt_iff_lt]
-  rfl
+  by_cases hj : 0 < j
+  · simp only [fixChild, repairCall_stealRight, repairCall_stealLeft _ _ hj, repairCall_mergeLeft _ _ hj,
+      repairCall_mergeRight, hasLeftSibling, hasRightSibling, leftSiblingIdx, rightSiblingIdx, stealRight, stealLeft,
+      mergeIntoLeft, e1, e2, Bool.and_eq_true, decide_eq_true_eq, Int.natCast_pos, Int.ofNat_lt, gt_iff_lt]
+    rfl
+  · have hj0 : j = 0 := by omega
+    subst hj0
+    simp only [fixChild, repairCall_stealRight, repairCall_mergeRight, hasLeftSibling, hasRightSibling, leftSiblingIdx,
+      rightSiblingIdx, stealRight, stealLeft, mergeIntoLeft, e2, Bool.and_eq_true, decide_eq_true_eq, Int.ofNat_lt,
+      gt_iff_lt, Int.natCast_pos, Nat.lt_irrefl, if_false, Option.isSome_none, Bool.false_eq_true, false_and,
+      decide_false]
+    rfl
 
 /-- postcondition of `fixChild` -/
 structure FixOK (h : Nat) (kvs : List (K × V)) (kvs' : List (K × V)) (kids' : List (Node K V)) (m : Option Nat) : Prop where
@@ -381,7 +390,7 @@ theorem finish_root {h rootId : Nat} {kvs : List (K × V)} {kids : List (Node K 
   | some a =>
     obtain ⟨hl, Lm, hLm⟩ := hok.merged a rfl
     by_cases h0 : kvs'.length = 0
-    · refine ⟨Lm, false, by simp [finish, he, mergeRootCheck, mergeRootEmpty, h0, hLm], h, ?_⟩
+    · refine ⟨Lm, false, by simp [finish, he, mergeRootCheck, mergeRootEmpty, mergeCollapseSetsRoot, h0, hLm], h, ?_⟩
       have := hok.all Lm (List.mem_of_getElem? hLm)
       refine ⟨this.1, this.2.2, ?_⟩
       intro _; have := this.2.1; omega
